@@ -6,7 +6,7 @@
 (* <<property id, predicate name>>.                                         *)
 (***************************************************************************)
 EXTENDS Naturals, Integers, Sequences, FiniteSets, SequencesExt,
-        FiniteSetsExt, Functions, TLC, Text, Vlq, SMap, Sem, Attr, Compose, Rope, EncM, SplitM, ReplaceM, ConcatM, HashM
+        FiniteSetsExt, Functions, TLC, Text, Vlq, SMap, Sem, Attr, Compose, Rope, EncM, SplitM, ReplaceM, ConcatM, HashM, LeafM
 
 NREG == 16
 EmptyHeap == [i \in 0..(NREG - 1) |-> Nil]
@@ -649,6 +649,8 @@ C18Checks(r, st) ==
            THEN {<<"C18", "cached_value_never_replaced">>,
                  <<"C19", "cached_map_borrow_stays_valid">>} ELSE {}
     [] r.op = "conc_end" -> {<<"C18", "no_deadlock">>, <<"DRIFT", "schedule_replayed">>}
+    \* refusal probe: a thread released although Conc says it must wait for a shard lock
+    [] r.op = "probe" -> {<<"DRIFT", "lock_refuses_as_modelled">>}
     [] "tid" \in DOMAIN r /\ "r" \in DOMAIN r /\ r.r \in DOMAIN st.ref ->
          IF \/ r.op \in {"source", "buffer", "size"} /\ HasPure(r, st, <<"source">>)
             \/ r.op = "map" /\ HasPure(r, st, <<"map", r.columns>>)
@@ -687,10 +689,11 @@ Checks(r, st) ==
               \cup (IF dom THEN {<<"C02", "end_position">>} ELSE {})
               \cup (IF dom /\ r.final THEN {<<"C02", "final_positions_in_text">>} ELSE {})
               \cup (IF dom THEN {<<"C11", "announce_before_use">>} ELSE {})
+              \cup (IF TreeOf(r, st).k \in {"orig", "raw"}
+                      THEN {<<"DRIFT", "leaf_stream_follows_LeafM">>} ELSE {})
               \cup (LET t == TreeOf(r, st)
                     IN IF IsMapLeaf(t) /\ IsAscii(t.b) /\ MapFitsText(LeafMap(t), t.b)
-                         THEN (IF r.columns /\ ~r.final
-                                 THEN {<<"DRIFT", "sms_stream_follows_SplitM">>} ELSE {})
+                         THEN {<<"DRIFT", "sms_stream_follows_SplitM">>}
                               \cup
                               {<<"C08", "declared_tables">>,
                                IF r.columns
@@ -860,7 +863,9 @@ Holds(c, r, st) ==
          LET m == EncodeLinesM(SegsOf(r.segs))
          IN r.out.m = IF m = <<>> THEN <<>> ELSE <<m>>
     [] c = <<"DRIFT", "sms_stream_follows_SplitM">> ->
-         LET model == SplitFull(t.b, DecodeMappings(LeafMap(t).m))
+         LET segs == DecodeMappings(LeafMap(t).m)
+             model == IF r.columns THEN (IF r.final THEN SplitFinal(t.b, segs) ELSE SplitFull(t.b, segs))
+                      ELSE (IF r.final THEN SplitLinesFinal(t.b, segs) ELSE SplitLinesFull(t.b, segs))
              cs == ChunksOf(r)
          IN /\ Len(cs) = Len(model)
             /\ \A i \in 1..Len(cs) :
@@ -887,7 +892,17 @@ Holds(c, r, st) ==
              model == ConcatFinal([k \in 1..Len(r.children) |-> kid(r.children[k])])
          IN /\ model.out = strip(mine.ev)
             /\ <<model.lineOff + 1, model.colOff>> = mine.end
+    [] c = <<"DRIFT", "leaf_stream_follows_LeafM">> ->
+         LET model == IF t.k = "orig" THEN OrigStream(t.b, r.columns, r.final)
+                      ELSE RawStream(TextOf(t), r.final)
+             cs == ChunksOf(r)
+         IN /\ Len(cs) = Len(model.ev)
+            /\ \A i \in 1..Len(cs) :
+                 /\ cs[i].x = model.ev[i].x /\ cs[i].o = model.ev[i].o
+                 /\ cs[i].gl = model.ev[i].gl /\ cs[i].gc = model.ev[i].gc
+            /\ r.out.end = model.end
     [] c = <<"DRIFT", "hash_feed_follows_HashM">> -> r.out.feed = Blank(Feed(t))
+    [] c = <<"DRIFT", "lock_refuses_as_modelled">> -> r.waited
     [] c = <<"DRIFT", "schedule_replayed">> ->
          /\ r.outcome = "completed"
          /\ r.schedule_len > 0 => (r.scheduled = r.schedule_len /\ r.extra = 0)
